@@ -76,5 +76,10 @@ func ValidatePeerPubKeyFormat(pubkey string) error {
 	if !vrf.ValidatePublicKey(pk) {
 		return fmt.Errorf("invalid for VRF")
 	}
+	// the peer pool, the peer index and the blacklist identify a peer by this string or by its
+	// decoded bytes: only the canonical encoding may be used, or one key gets several identities
+	if vbftconfig.PubkeyID(pk) != pubkey {
+		return fmt.Errorf("pubkey is not in canonical encoding")
+	}
 	return nil
 }
